@@ -332,8 +332,9 @@ def check(ctx):
     ctx.require_min("kernels calling mh_step", callers, 3)
 
     # ---- shared mechanisms: the neighbour's rules run as obligations of this property
+    ctx.include("C03", "C05.R6", only=['C03.R4'])
     ctx.include("C06", "C05.R6", only=['C06.R2'])
-    ctx.rule("R6", "shared mechanisms, run as obligations of this property: an undefined IWLS backward density must reach mh_step as NaN (C06.R2).")
+    ctx.rule("R6", "shared mechanisms, run as obligations of this property: the log-density mh_step compares is the model's log-probability as it is (NaN and -inf reach the guard unchanged) (C03.R4); an undefined IWLS backward density must reach mh_step as NaN (C06.R2).")
 
 
 def contains_exp_of(t, inner):
